@@ -190,6 +190,7 @@ func C15(p *core.Program, r *core.Report) {
 		core.CheckDecisionList(r, "A1", "ExtractTitle", feasible, atoms, spec)
 		r.Add("A2", "the second candidate is made of <title>/<h1> text only (slicing, trimming, whitespace joins)", p.Pos(ex.Pos()), nDoc > 0, fmt.Sprintf("%d append events carry a value of that provenance", nDoc))
 		// A2: length gate in characters, separator tests
+		checkInnerTextChain(p, r, "A2")
 		r.Add("A2", "title length gate: more than 150 characters", p.Pos(ex.Pos()), atoms[`utf8.RuneCountInString(`+title+`) <= 150`], "counted with utf8.RuneCountInString on the <title> text")
 		r.Add("A2", "title length gate: fewer than 15 characters", p.Pos(ex.Pos()), atoms[`utf8.RuneCountInString(`+title+`) <= 14`], "")
 		sepColon := atoms[`strings.Index(`+title+`,": ") == -1`] || atoms[`strings.Contains(`+title+`,": ")`]
@@ -337,6 +338,24 @@ func C15(p *core.Program, r *core.Report) {
 			}
 		}
 		r.Add("A3", "a matching block is labelled Title (and only a matching one)", p.Pos(pr.Pos()), okLabel, "")
+		// every block is compared: no iteration ends before the whole-text lookup is decided
+		if len(hs) == 1 {
+			paths, _, _ := core.EnumerateDecisions(p, pr, core.DecisionOpts{IterateAt: hs[0], Outcome: noOutcome})
+			var skipped []string
+			for _, pa := range paths {
+				looked := false
+				for _, l := range pa.Lits {
+					if strings.HasPrefix(l.Atom, "in($0.‹map[string]struct{}›,") {
+						looked = true
+					}
+				}
+				if !looked && !strings.Contains(pa.Outcome, "exit") {
+					skipped = append(skipped, shortVal(pa.String()))
+				}
+			}
+			r.Add("A3", "every text block is compared with the potential titles", p.Pos(pr.Pos()), len(paths) > 0 && len(skipped) == 0,
+				fmt.Sprintf("%d iteration paths, %d end without a lookup", len(paths), len(skipped)), skipped...)
+		}
 	}
 	// the candidates given to the matcher are the extractor's candidate titles
 	if ec := mustInl(p, r, "A3", "(*"+extractorPkg+".ContentExtractor).ExtractContent"); ec != nil {
@@ -512,4 +531,28 @@ func flowsToStoreAt(c *core.Canon, v ssa.Value, root string, seen map[ssa.Value]
 		}
 	}
 	return false
+}
+
+// reviewed post-processing of domutil.InnerText: whitespace collapsed (Fields+Join), blanks in
+// front of punctuation re-spaced, line-break markers turned into newlines - nothing else touches
+// the characters of the text (the <title> text of A2 is this function's result).
+var reInnerTextChain = regexp.MustCompile(`^regexp\.Regexp\.ReplaceAllString\(rx‹\\s\*\\\|\\\\/\\\|\\s\*›,regexp\.Regexp\.ReplaceAllString\(rx‹\\s\+\(\[\.\?!,;\]\)\\s\*\(\\S\*\)›,strings\.Join\(strings\.Fields\((?:bytes\.Buffer|strings\.Builder)\.String\([^()]*(?:\([^()]*\))?[^()]*\)\)," "\),"\$1 \$2"\),"\\n"\)$`)
+
+func checkInnerTextChain(p *core.Program, r *core.Report, rule string) {
+	it := mustInl(p, r, rule, domutilPkg+".InnerText")
+	if it == nil {
+		return
+	}
+	c := core.NewCanon(p)
+	rets := core.Returns(it)
+	ok := len(rets) > 0
+	var got []string
+	for _, ret := range rets {
+		v := c.Of(ret.Results[0])
+		got = append(got, v)
+		if !reInnerTextChain.MatchString(v) {
+			ok = false
+		}
+	}
+	r.Add(rule, "InnerText changes nothing but whitespace (collapse, blanks before punctuation, line-break markers)", p.Pos(it.Pos()), ok, "returns: "+strings.Join(got, " | "))
 }
